@@ -1,10 +1,10 @@
 package props
 
 import (
-	"strconv"
 	"encoding/json"
 	"fmt"
 	"reflect"
+	"strconv"
 	"strings"
 
 	gpb "github.com/openconfig/gnmi/proto/gnmi"
